@@ -1126,13 +1126,11 @@ class CanBeVaries(Element):
 
         if name is not None and _valid_child_name(name, 'VARIES'):
             # Set name to None because with a VARIES name the Element would raise an Exception
-            Element.__init__(self, None, parent, reference, version,
-                             validation_level, traversal_parent)
+            Element.__init__(self, None, None, reference, version, validation_level, None)
             self.name = name.upper()
         else:
             try:
-                Element.__init__(self, name, parent, reference, version,
-                                 validation_level, traversal_parent)
+                Element.__init__(self, name, None, reference, version, validation_level, None)
             except ChildNotFound:
                 raise InvalidName(self.classname, self.name)
 
@@ -1154,6 +1152,11 @@ class CanBeVaries(Element):
         else:
             self._set_datatype_or_detach(datatype)
             self.name = self.datatype
+
+        # the element joins the parent it was given only now that its name is settled: the parent indexes it under that name
+        self.parent = parent
+        if parent is None:
+            self.traversal_parent = traversal_parent
 
     def _set_datatype_or_detach(self, datatype):
         try:
